@@ -449,6 +449,35 @@ def _transparent(fx, hb, e):
     ty = fx.ty(e) or ""
     if k == "Path" and e["res"].get("k") == "Local" and ty.startswith(RAW_SOURCES_TY):
         return True, "a %s" % ty
+    if k == "Path" and e["res"].get("k") == "Local":
+        lid = e["res"]["lid"]
+        uses = [n for n, _ in walk_body(hb) if n.get("k") == "Path" and (n.get("res") or {}).get("k") == "Local" and n["res"].get("lid") == lid]
+        if len(uses) != 1:
+            return False, "a reader (`%s`) that is used %d more time(s) before it is stored — anything that reads, peeks or consumes from it changes what the stage sees" % (
+                e["res"].get("name"), len(uses) - 1)
+        # a parameter of a (constructor) function: what every caller passes
+        pidx = [i for i, p in enumerate(hb.get("params", [])) if p.get("k") == "Binding" and p.get("lid") == lid]
+        if pidx:
+            sites = []
+            for cb in fx.hir:
+                if cb["from_expansion"]:
+                    continue
+                for n, _ in walk_body(cb):
+                    if n.get("k") == "Call" and (n.get("callee") or {}).get("did") == hb["did"] and len(n["args"]) > pidx[0]:
+                        sites.append((cb, n["args"][pidx[0]]))
+            if not sites:
+                return False, "a parameter of %s, which nothing calls" % hb["path"]
+            for cb, a in sites:
+                okc, whyc = _transparent(fx, cb, a)
+                if not okc:
+                    return False, "passed in by %s: %s" % (cb["path"], whyc)
+            return True, "passed in by %d caller(s), each time the file / stdin under Box / BufReader" % len(sites)
+        # a local bound once to a transparent expression
+        for n, _ in walk_body(hb):
+            if n.get("k") == "Block":
+                for st in n["block"]["stmts"]:
+                    if st["k"] == "Let" and st["pat"].get("k") == "Binding" and st["pat"].get("lid") == lid and "init" in st:
+                        return _transparent(fx, hb, st["init"])
     if k == "MethodCall":
         cd = (e.get("callee") or {}).get("def") or ""
         if cd in ("std::io::Stdin::lock",):
@@ -615,3 +644,49 @@ def fn_at(fx, at):
             if best is None or sp["l"] > best["span"]["l"]:
                 best = hb
     return best
+
+
+def effective_callers(fx, cg, did, roots, depth=3):
+    """who calls `did`, looking *through* private helper functions: a caller that is not one of `roots` and is a private
+    (non-`pub`) function of the crate is replaced by its own callers (up to `depth` levels). Extracting
+    `fn allocate_and_push(..)` out of two handlers leaves the effective callers what they were."""
+    out = set()
+    seen = set()
+
+    def up(d, k):
+        for c in cg.callers_of(d):
+            p = cg.path[c]
+            hb = fx.hir_by_did.get(c)
+            private = hb is not None and hb.get("vis") not in ("Public",) and hb.get("dk") in ("Fn", "AssocFn") and not hb.get("from_expansion")
+            if p in roots or not private or k == 0 or c in seen:
+                out.add(p)
+            else:
+                seen.add(c)
+                before = len(out)
+                up(c, k - 1)
+                if len(out) == before and not cg.callers_of(c):
+                    out.add(p)      # an uncalled helper stays visible
+    up(did, depth)
+    return out
+
+
+def partial_source_readers(fx, adt="NamedSource", field="source"):
+    """[(function, where, ok, why)] — who reads from the CLI's input besides its consumer: the reader stored in
+    `adt.field` may be touched by the forwarding `Read` / `BufRead` impls of the type (checked to be plain forwards
+    elsewhere) and by whole-input reads (`read_to_string`, `read_to_end`). Any other function that reads, peeks
+    (`fill_buf`), consumes or seeks it takes bytes away from the stage that is meant to see them — on a throw-away second
+    handle of stdin whatever it buffers is lost."""
+    from ..census import field_uses
+    out = []
+    for b, n, ps, ctx in field_uses(fx, adt, field):
+        if b["from_expansion"]:
+            continue
+        if not (ctx["kind"] in ("recv", "arg", "addr_of_mut") and ctx.get("mut")):
+            continue
+        m = ctx.get("method") or ctx["kind"]
+        in_forwarder = b["path"].startswith("<%s as std::io::Read>::" % adt) or b["path"].startswith("<%s as std::io::BufRead>::" % adt)
+        whole = m in ("read_to_string", "read_to_end")
+        ok = in_forwarder or whole
+        out.append((b["path"], loc(n), ok, ("forwarding impl" if in_forwarder else "whole-input read .%s()" % m) if ok else
+                    "`.%s()` on the input outside the forwarding impls: it reads / peeks bytes the consumer of this input will not see again" % m))
+    return out
